@@ -61,3 +61,11 @@ impl Message<WithTopology> for ClusterActor {
         (msg.0)(&mut self.swarm.behaviour_mut().topology)
     }
 }
+
+/// A point at which the simulator can park an async task: it stays here, yielding to the
+/// executor, for as long as the simulator answers `Yield`.
+pub async fn hold(site: &'static str, a: u64, b: u64) {
+    while sierradb::verif::point(site, a, b) == sierradb::verif::Action::Yield {
+        tokio::task::yield_now().await;
+    }
+}
